@@ -197,7 +197,7 @@ def fnum(x):
 
 # =========================================================================== IMPORT
 UNITS = ["s", "samples", "both"]
-POS_LABELS = ["e", "empty", "a", ""]  # distinct per position; "e", "empty", "" are substrings of the default empty label
+POS_LABELS = ["e", "empty", " a ", ""]  # distinct per position; "e", "empty", "" are substrings of the default empty label
 IMPORT_FN = {
     "segment": "segment_to_annotation", "bbox": "bbox_to_annotation", "sequence": "sequence_to_annotations",
     "annotation_seq": "annotation_to_clip_annotation[seq]", "annotation_bbox": "annotation_to_clip_annotation[bbox]",
